@@ -27,6 +27,11 @@ CONSTANTS Methods,     \* methods the router supports (used for registration)
           ReqToks,     \* literal tokens offered to request paths
           DirtToks     \* literal tokens used in the unclean spellings
 
+\* Method names are opaque, case-sensitive strings: "get" and "GET" are two names, and a name is
+\* supported iff it is literally a member of Methods.  BadMethods may therefore hold other
+\* spellings of supported verbs ("get", "Post") next to foreign names ("", "TRACE", "FOO").
+ASSUME Methods \cap BadMethods = {}
+
 VARIABLES table,       \* set of accepted routes [m, p]
           out          \* observation of the last step
 
@@ -133,6 +138,15 @@ Spec == Init /\ [][Next]_vars
 core == <<table>>
 
 TypeOK == table \subseteq [m : Methods, p : GoodPatterns]
+
+\* an unsupported name never owns a route and is never advertised, whatever was registered:
+\* a request under it can only be answered 405 (routes of supported methods match) or 404
+BadMethodsInert ==
+  /\ \A r \in table : r.m \notin BadMethods
+  /\ \A m \in ReqMethods, raw \in RawPaths :
+       LET o == Outcome(table, m, raw)
+       IN /\ o.k = "405" => o.allow \cap BadMethods = {}
+          /\ m \in BadMethods => o.k # "handler"
 
 \* a request is answered by exactly one of: a handler of a matching pattern, 405 + Allow, 404
 Partition ==
